@@ -134,6 +134,24 @@ macro_rules! check_visit {
     };
 }
 
+// the max nesting depth of arrays and objects, to avoid stack overflow in the recursive parsers
+const MAX_ALLOWED_DEPTH: u8 = u8::MAX;
+
+// parse or skip a nested array or object within the depth budget
+macro_rules! nested {
+    ($self:ident, $e:expr) => {{
+        $self.remaining_depth -= 1;
+        if $self.remaining_depth == 0 {
+            $self.remaining_depth += 1;
+            perr!($self, RecursionLimitExceeded)
+        } else {
+            let ret = $e;
+            $self.remaining_depth += 1;
+            ret
+        }
+    }};
+}
+
 #[inline(always)]
 fn get_escaped_branchless_u64(prev_escaped: &mut u64, backslash: u64) -> u64 {
     const EVEN_BITS: u64 = 0x5555_5555_5555_5555;
@@ -217,6 +235,7 @@ pub struct Parser<R> {
     error_index: usize,   // mark the error position
     nospace_bits: u64,    // SIMD marked nospace bitmap
     nospace_start: isize, // the start position of nospace_bits
+    remaining_depth: u8,  // the remaining nesting depth of arrays and objects
     pub(crate) cfg: DeserializeCfg,
 }
 
@@ -246,6 +265,7 @@ where
             error_index: usize::MAX,
             nospace_bits: 0,
             nospace_start: -128,
+            remaining_depth: MAX_ALLOWED_DEPTH,
             cfg: DeserializeCfg::default(),
         }
     }
@@ -389,8 +409,8 @@ where
             match first {
                 Some(c @ b'-' | c @ b'0'..=b'9') => self.parse_number_inplace(c, vis),
                 Some(b'"') => self.parse_string_inplace(vis),
-                Some(b'{') => self.parse_object(vis),
-                Some(b'[') => self.parse_array(vis),
+                Some(b'{') => nested!(self, self.parse_object(vis)),
+                Some(b'[') => nested!(self, self.parse_array(vis)),
                 Some(first) => self.parse_literal_visit(first, vis),
                 None => perr!(self, EofWhileParsing),
             }?;
@@ -539,8 +559,8 @@ where
         match self.skip_space() {
             Some(c @ b'-' | c @ b'0'..=b'9') => self.parse_number_inplace(c, visitor),
             Some(b'"') => self.parse_string_inplace(visitor),
-            Some(b'{') => self.parse_object(visitor),
-            Some(b'[') => self.parse_array(visitor),
+            Some(b'{') => nested!(self, self.parse_object(visitor)),
+            Some(b'[') => nested!(self, self.parse_array(visitor)),
             Some(first) => self.parse_literal_visit(first, visitor),
             None => return perr!(self, EofWhileParsing),
         }?;
@@ -697,8 +717,8 @@ where
         match self.skip_space() {
             Some(c @ b'-' | c @ b'0'..=b'9') => self.parse_number_visit(c, vis),
             Some(b'"') => self.parse_string_owned(vis, strbuf),
-            Some(b'{') => self.parse_object2(vis, strbuf),
-            Some(b'[') => self.parse_array2(vis, strbuf),
+            Some(b'{') => nested!(self, self.parse_object2(vis, strbuf)),
+            Some(b'[') => nested!(self, self.parse_array2(vis, strbuf)),
             Some(first) => self.parse_literal_visit(first, vis),
             None => perr!(self, EofWhileParsing),
         }
@@ -753,8 +773,8 @@ where
             match first {
                 Some(c @ b'-' | c @ b'0'..=b'9') => self.parse_number_visit(c, visitor),
                 Some(b'"') => self.parse_string_owned(visitor, strbuf),
-                Some(b'{') => self.parse_object2(visitor, strbuf),
-                Some(b'[') => self.parse_array2(visitor, strbuf),
+                Some(b'{') => nested!(self, self.parse_object2(visitor, strbuf)),
+                Some(b'[') => nested!(self, self.parse_array2(visitor, strbuf)),
                 Some(first) => self.parse_literal_visit(first, visitor),
                 None => perr!(self, EofWhileParsing),
             }?;
@@ -1568,8 +1588,8 @@ where
                 status = self.skip_string()?;
                 Ok(())
             }
-            Some(b'{') => self.skip_object(),
-            Some(b'[') => self.skip_array(),
+            Some(b'{') => nested!(self, self.skip_object()),
+            Some(b'[') => nested!(self, self.skip_array()),
             Some(b't') => self.parse_literal("rue"),
             Some(b'f') => self.parse_literal("alse"),
             Some(b'n') => self.parse_literal("ull"),
